@@ -42,13 +42,16 @@ package server
 //@ ensures[C10] split: s.rollout != nil && s.rolloutController != nil && rolloutValue(ref(req)) != "" ==> result == ite(in(rolloutValue(ref(req)), s.rolloutController.Allowlist) || inPercentage(rolloutValue(ref(req)), s.rolloutController.PercentageSplitPoint), s.rollout, s.active)
 
 //@ func (*server.Service).SetRolloutSplit
+//@ emits RolloutSplit(s, percentage)
 //@ assigns s.rolloutController
+//@ ensures[C17] no_timed_wait: now == old(now)
 //@ ensures[C10] rejected: old(s.rollout) == nil ==> err == ErrorRolloutTargetNotSet && s.rolloutController == old(s.rolloutController)
 //@ ensures[C10] accepted: old(s.rollout) != nil ==> err == nil && fresh(s.rolloutController) && s.rolloutController.Percentage == percentage && s.rolloutController.PercentageSplitPoint == fpSplit(percentage) && s.rolloutController.Allowlist == allowlist
 
 //@ func (*server.Service).StopRollout
 //@ assigns s.rolloutController
 //@ ensures[C10] cleared: err == nil && s.rolloutController == nil
+//@ ensures[C17] no_timed_wait: now == old(now)
 
 //@ func server.SetErrorResponse
 //@ may_emit HttpError
@@ -527,20 +530,25 @@ package server
 //@ ensures[C12] success_means_replaced: result == nil ==> count(FsRename(_, _)) == 1 && count(ListServices(_)) == 1
 //@ ensures[C12] failure_leaves_the_old_file: result != nil ==> none(FsRename)
 //@ ensures[C12] snapshots_are_serialized: first(Lock(r, lockid("server.Router.snapshotLock")), ListServices(_)) && !held(r.snapshotLock) && (result == nil ==> first(FsRename(_, _), Unlock(r, lockid("server.Router.snapshotLock"))))
+//@ ensures[C17] no_timed_wait: now == old(now)
 //@ emits Snapshot(r)
 
 //@ func (*server.Router).installService
-//@ may_emit *
-//@ requires s != nil && r.services != nil
-//@ attr noframe
-//@ assigns ServiceMap.services, ServiceMap.requestServiceMap
+//@ requires s != nil && r.services != nil && s.active != nil && s.pauseController != nil
+//@ attr blocks
+//@ assigns Router.services, ServiceMap.requestServiceMap, mapsof(ServiceMap.services), Service.options, `os.File`.content
+//@ may_emit Snapshot, SetService, RebuildTable, ListServices, CreateTemp, JsonEncode, FileClose, FsRename, FileRemove, MarshalService, FsTruncate
 //@ emits Install(r, s) when err == nil
-//@ ensures[C12] snapshot_follows: last_is(Snapshot(r))
+//@ ensures[C05] conflicting_pair_rejected: err != nil ==> err == ErrorHostInUse && none(SetService)
+//@ ensures[C05,C02] installed_in_one_critical_section: err == nil ==> count(SetService(_, _)) == 1 && emitted(SetService(_, s)) && count(Lock(r, lockid("server.Router.serviceLock"))) == 1 && first(Lock(r, lockid("server.Router.serviceLock")), SetService(_, _)) && first(SetService(_, _), Unlock(r, lockid("server.Router.serviceLock")))
+//@ ensures[C12] snapshot_follows_the_change: last_is(Snapshot(r)) && first(Unlock(r, lockid("server.Router.serviceLock")), Snapshot(r))
 //@ ensures[C18] lock_free: !held(r.serviceLock)
+//@ ensures[C17] no_timed_wait: now == old(now)
 
 //@ func (*server.Router).deployTargetsIntoService
 //@ may_emit *
-//@ requires service != nil && r.services != nil
+//@ emits DeployTargets(r, service, targetSlot, deployTimeout, drainTimeout)
+//@ requires service != nil && r.services != nil && service.pauseController != nil && (targetSlot == TargetSlotRollout ==> service.active != nil)
 //@ attr blocks
 //@ assigns *
 //@ ensures[C01] waits_for_every_new_target_first: all(UpdateLB, before(WaitHealthy($1, deployTimeout), UpdateLB($0, $1, targetSlot, $3)) && $0 == ref(service))
@@ -600,9 +608,11 @@ package server
 //@ assigns Target.healthcheck, cancelled, closed
 //@ may_emit StopProbes, Cancel, Dispose
 //@ ensures[C17] both_slots_stopped: (forall i int :: 0 <= i && i < len(s.active.all) ==> probesStopped(s.active.all[i])) && (s.rollout != nil ==> forall i int :: 0 <= i && i < len(s.rollout.all) ==> probesStopped(s.rollout.all[i]))
+//@ ensures[C17] no_timed_wait: now == old(now)
 //@ emits DisposeService(s)
 
 //@ func (*server.Service).Stop
+//@ emits StopSvc(s, drainTimeout, message)
 //@ requires s.pauseController != nil && s.active != nil
 //@ attr blocks
 //@ assigns *
@@ -611,6 +621,7 @@ package server
 //@ ensures[C17] bounded_by_drain_timeout: now <= old(now) + max(drainTimeout, 0)
 
 //@ func (*server.Service).Pause
+//@ emits PauseSvc(s, drainTimeout, pauseTimeout)
 //@ requires s.pauseController != nil && s.active != nil
 //@ attr blocks
 //@ assigns *
@@ -619,6 +630,7 @@ package server
 //@ ensures[C17] bounded_by_drain_timeout: now <= old(now) + max(drainTimeout, 0)
 
 //@ func (*server.Service).Resume
+//@ emits ResumeSvc(s)
 //@ requires s.pauseController != nil
 //@ assigns s.pauseController.State, s.pauseController.StopMessage, closed(s.pauseController.pauseChannel)
 //@ may_emit Close
@@ -931,3 +943,132 @@ package server
 //@ ensures[C11] active_targets_presumed_healthy: err == nil ==> s.active != nil && fresh(s.active) && lbReady(s.active) && len(s.active.all) == len(ms.ActiveTargets)
 //@ ensures[C10,C11] rollout_slot_only_with_rollout_targets: err == nil ==> (len(ms.RolloutTargets) == 0 ==> s.rollout == nil) && (len(ms.RolloutTargets) > 0 ==> s.rollout != nil && lbReady(s.rollout) && len(s.rollout.all) == len(ms.RolloutTargets))
 //@ ensures[C11,C16] reinitialised: err == nil ==> (!isnil(s.certManager)) == s.options.TLSEnabled && !isnil(s.middleware)
+
+//@ func (*server.ServiceMap).CheckAvailability
+//@ requires tableWF(m)
+//@ assigns nothing
+//@ ensures[C05] free_means_no_other_owner: result == nil ==> forall hi int, pi int :: 0 <= hi && hi < len(options.Hosts) && 0 <= pi && pi < len(options.PathPrefixes) ==> !ownedByOther(m, options.Hosts[hi], options.PathPrefixes[pi], name)
+//@ ensures[C05] conflict_names_another_owner: result != nil ==> result.name != name && exists hi int, pi int, bi int :: 0 <= hi && hi < len(options.Hosts) && 0 <= pi && pi < len(options.PathPrefixes) && haskey(m.requestServiceMap, options.Hosts[hi]) && 0 <= bi && bi < len(m.requestServiceMap[options.Hosts[hi]]) && m.requestServiceMap[options.Hosts[hi]][bi].service == result && m.requestServiceMap[options.Hosts[hi]][bi].pathPrefix == options.PathPrefixes[pi]
+//@ loop 1 invariant[C05] hosts_checked: forall hi int, pi int :: 0 <= hi && hi < idx && 0 <= pi && pi < len(options.PathPrefixes) ==> !ownedByOther(m, coll[hi], options.PathPrefixes[pi], name)
+//@ loop 1 invariant same: coll == options.Hosts && idx <= len(coll)
+//@ loop 2 invariant[C05] prefixes_checked: forall pi int :: 0 <= pi && pi < idx ==> !ownedByOther(m, host, coll[pi], name)
+//@ loop 2 invariant same: coll == options.PathPrefixes && idx <= len(coll)
+//@ loop 3 invariant[C05] bindings_checked: forall bi int :: 0 <= bi && bi < idx ==> !(coll[bi].pathPrefix == pathPrefix && coll[bi].service.name != name)
+//@ loop 3 invariant same: idx <= len(coll) && (haskey(m.requestServiceMap, host) ==> coll == m.requestServiceMap[host]) && (!haskey(m.requestServiceMap, host) ==> len(coll) == 0)
+//@ loop 3 invariant bindings_wf: forall bi int :: 0 <= bi && bi < len(coll) ==> coll[bi] != nil && coll[bi].service != nil
+
+//@ func (*server.ServiceMap).updateRequestServiceMap
+//@ attr trusted_summary
+//@ requires m.services != nil && forall n string :: haskey(m.services, n) ==> m.services[n] != nil && m.services[n].name == n
+//@ assigns m.requestServiceMap, Service.options
+//@ ensures[C04,C05] table_rebuilt_from_the_services: repInv(m) && m.services == old(m.services)
+//@ emits RebuildTable(m)
+
+//@ func (*server.ServiceMap).Get
+//@ requires m.services != nil
+//@ assigns nothing
+//@ ensures[C05,C06] lookup_by_name: (haskey(m.services, name) ==> result == m.services[name]) && (!haskey(m.services, name) ==> result == nil)
+
+//@ func (*server.ServiceMap).Set
+//@ requires service != nil && m.services != nil && (forall n string :: haskey(m.services, n) ==> m.services[n] != nil && m.services[n].name == n)
+//@ assigns mapof(m.services), m.requestServiceMap, Service.options
+//@ may_emit RebuildTable
+//@ ensures[C05,C04] entry_replaced_by_name: haskey(m.services, service.name) && m.services[service.name] == service && forall n string :: n != service.name ==> haskey(m.services, n) == old(haskey(m.services, n)) && m.services[n] == old(m.services[n])
+//@ ensures[C04,C05] table_follows: repInv(m)
+//@ emits SetService(m, service)
+
+//@ func (*server.ServiceMap).Remove
+//@ requires m.services != nil && (forall n string :: haskey(m.services, n) ==> m.services[n] != nil && m.services[n].name == n)
+//@ assigns mapof(m.services), m.requestServiceMap, Service.options
+//@ may_emit RebuildTable
+//@ ensures[C05] all_pairs_released: !haskey(m.services, name) && forall n string :: n != name ==> haskey(m.services, n) == old(haskey(m.services, n)) && m.services[n] == old(m.services[n])
+//@ ensures[C04,C05] table_follows: repInv(m)
+//@ emits RemoveService(m, name)
+
+//@ func (*server.Router).serviceForName
+//@ requires r.services != nil
+//@ assigns nothing
+//@ ensures[C06] by_name_under_the_read_lock: result != nil ==> result.name == name && result.active != nil && result.pauseController != nil
+//@ ensures[C18] lock_free: !held_r(r.serviceLock)
+
+//@ func (*server.Router).findOrCreateService
+//@ requires r.services != nil
+//@ assigns nothing
+//@ may_emit LoadCert, ParseTemplates
+//@ ensures[C06] validation_failures_create_nothing: err != nil ==> none(NewLB) && none(NewHealthCheck)
+//@ ensures[C06,C07,C08] works_on_a_copy: err == nil ==> result0 != nil && fresh(result0) && result0.name == name && result0.pauseController != nil
+
+//@ func (*server.Router).DeployService
+//@ requires r.services != nil
+//@ attr blocks
+//@ assigns *
+//@ may_emit *
+//@ ensures[C06] option_errors_touch_nothing: none(DeployTargets) ==> err != nil && none(Install) && none(UpdateLB) && none(NewLB)
+//@ ensures[C17] timeouts_passed_in_position: all(DeployTargets, $3 == deployTimeout && $4 == drainTimeout && $2 == TargetSlotActive) && count(DeployTargets(_, _, _, _, _)) <= 1
+//@ ensures[C17] bounded_by_deploy_plus_drain_timeout: now <= old(now) + max(deployTimeout, 0) + max(drainTimeout, 0)
+
+//@ func (*server.Router).SetRolloutTargets
+//@ requires r.services != nil
+//@ attr blocks
+//@ assigns *
+//@ may_emit *
+//@ ensures[C06] unknown_service_rejected: none(DeployTargets) ==> err == ErrorServiceNotFound
+//@ ensures[C17] timeouts_passed_in_position: all(DeployTargets, $3 == deployTimeout && $4 == drainTimeout && $2 == TargetSlotRollout) && count(DeployTargets(_, _, _, _, _)) <= 1
+//@ ensures[C17] bounded_by_deploy_plus_drain_timeout: now <= old(now) + max(deployTimeout, 0) + max(drainTimeout, 0)
+
+//@ func (*server.Router).SetRolloutSplit
+//@ requires r.services != nil
+//@ attr blocks
+//@ assigns Service.rolloutController, `os.File`.content
+//@ may_emit Snapshot, RolloutSplit, ListServices, CreateTemp, JsonEncode, FileClose, FsRename, FileRemove, MarshalService, FsTruncate
+//@ ensures[C06,C10] unknown_service_rejected: none(RolloutSplit) ==> err == ErrorServiceNotFound
+//@ ensures[C12] snapshot_taken: last_is(Snapshot(r))
+//@ ensures[C17] returns_without_waiting: now == old(now)
+
+//@ func (*server.Router).StopRollout
+//@ requires r.services != nil
+//@ attr blocks
+//@ assigns Service.rolloutController, `os.File`.content
+//@ may_emit Snapshot, RolloutSplit, ListServices, CreateTemp, JsonEncode, FileClose, FsRename, FileRemove, MarshalService, FsTruncate
+//@ ensures[C12] snapshot_taken: last_is(Snapshot(r))
+//@ ensures[C17] returns_without_waiting: now == old(now)
+
+//@ func (*server.Router).PauseService
+//@ requires r.services != nil
+//@ attr blocks
+//@ assigns *
+//@ may_emit *
+//@ ensures[C06] unknown_service_rejected: none(PauseSvc) ==> err == ErrorServiceNotFound
+//@ ensures[C17] timeouts_passed_in_position: all(PauseSvc, $1 == drainTimeout && $2 == pauseTimeout)
+//@ ensures[C17] bounded_by_drain_timeout: now <= old(now) + max(drainTimeout, 0)
+//@ ensures[C12] snapshot_taken: last_is(Snapshot(r))
+
+//@ func (*server.Router).StopService
+//@ requires r.services != nil
+//@ attr blocks
+//@ assigns *
+//@ may_emit *
+//@ ensures[C06] unknown_service_rejected: none(StopSvc) ==> err == ErrorServiceNotFound
+//@ ensures[C17,C08] arguments_passed_in_position: all(StopSvc, $1 == drainTimeout && $2 == message)
+//@ ensures[C17] bounded_by_drain_timeout: now <= old(now) + max(drainTimeout, 0)
+//@ ensures[C12] snapshot_taken: last_is(Snapshot(r))
+
+//@ func (*server.Router).ResumeService
+//@ requires r.services != nil
+//@ attr blocks
+//@ assigns *
+//@ may_emit *
+//@ ensures[C06] unknown_service_rejected: none(ResumeSvc) ==> err == ErrorServiceNotFound
+//@ ensures[C17] returns_without_waiting: now == old(now)
+//@ ensures[C12] snapshot_taken: last_is(Snapshot(r))
+
+//@ func (*server.Router).RemoveService
+//@ requires r.services != nil
+//@ attr blocks
+//@ assigns *
+//@ may_emit *
+//@ ensures[C05,C17] probes_stopped_then_pairs_released: err == nil ==> first(DisposeService(_), RemoveService(_, name)) && count(RemoveService(_, _)) == 1
+//@ ensures[C06] unknown_service_rejected: err != nil ==> err == ErrorServiceNotFound && none(RemoveService) && none(DisposeService)
+//@ ensures[C17] returns_without_waiting: now == old(now)
+//@ ensures[C12] snapshot_taken: last_is(Snapshot(r))
+//@ ensures[C18] lock_free: !held(r.serviceLock)
